@@ -20,6 +20,7 @@ FAMILY = {
     'meta': "start: @int | @name [@uint] | @bool ;\n",
     'alerts_constants': "start: 'a' ^`warn` `7` | 'b' ^^`two` `x` ;\n",
     'pattern_slash': "start: /a\\/b/ | ?'c/d' | /[\\/] / ;\n",
+    'pattern_backslash_slash': 'start: ","%{ ?"[\\\\/]" }+ | ?"a\\\\/b" ;\n',
     'pattern_quotes': "start: /a'b/ | /a\"b/ | ?\"x'y\" ;\n",
     'token_quotes': "start: \"c'd\" | 'e\"f' | '\\\\' ;\n",
     'token_backslash': "start: 'a\\\\b' | 'a\\nb' | '\\t' ;\n",
@@ -33,7 +34,7 @@ FAMILY = {
     'long_rule': "start: " + " | ".join(f"'k{i}' 'v{i}'" for i in range(14)) + " ;\n",
     'dot_void_fail': "start: 'a' /./ () | 'b' !() | 'c' {} 'd' ;\n",
 }
-QUICK = ['directives', 'keywords', 'params', 'based', 'nomemo_override', 'eol_skipto', 'pattern_slash', 'token_quotes', 'token_backslash', 'joins', 'named_forms',
+QUICK = ['directives', 'keywords', 'params', 'based', 'nomemo_override', 'eol_skipto', 'pattern_slash', 'pattern_backslash_slash', 'token_quotes', 'token_backslash', 'joins', 'named_forms',
          'lookaheads_groups', 'alerts_constants', 'typed', 'dot_void_fail', 'include']
 
 
